@@ -143,6 +143,13 @@ def render(f, rc):
 
 
 def run(ctx):
+    try:
+        _run(ctx)
+    except L.GiveUp:   # parses that do not terminate: judged, nothing more is generated
+        L.judge_hangs(ctx, SPEC)
+
+
+def _run(ctx):
     quick = ctx.tier == "quick"
     from clikit.args import DefaultArgsParser
 
